@@ -292,6 +292,17 @@ func drawTask(r *rng.R, models []drawnModel, n int, allowLoad bool) Task {
 				for _, name := range sortedKeys(c.Inputs) {
 					c.Flavour[name] = []string{"lazyT", "view", ""}[r.Intn(3)]
 				}
+			} else if r.Chance(1, 8) {
+				// one tensor object passed under two input names (x and y of Add(x, y) are the same data)
+				names := sortedKeys(c.Inputs)
+				for i := 0; i+1 < len(names); i++ {
+					a, b := c.Inputs[names[i]], c.Inputs[names[i+1]]
+					if a != nil && b != nil && a.DT == b.DT && fmt.Sprint(a.Shape) == fmt.Sprint(b.Shape) {
+						c.Inputs[names[i+1]] = a.Clone()
+						c.Alias = map[string]string{names[i+1]: names[i]}
+						break
+					}
+				}
 			}
 			t.Calls = append(t.Calls, c)
 		case k < 40 && len(prev) > 0:
